@@ -7,7 +7,22 @@ import re
 ROOT = os.path.dirname(os.path.dirname(os.path.abspath(__file__)))
 
 # id -> (engine, level, design_ref, text, note, technique)
+SIM_NOTE = ("Executions run the real wtransport driver on real quinn 0.11 over an in-memory network with tokio's paused clock, on a "
+            "single-threaded runtime; the select! start index (vendored tokio 1.53.1 hook) and quinn's RNG seed are owned by the harness; "
+            "a fixed fraction of scenarios and every failing one is executed twice and must reproduce identical observations. quinn, rustls "
+            "and tokio::sync are trusted. Multi-thread interleavings inside a single poll are not explored.")
+
 CHECKS = {
+    "C01": ("simx", "exploration", "DESIGN.md §6-C01",
+            "Every scenario of a finite grid is executed end to end (TLS handshake, HTTP/3 setup, session, streams): topologies wt<->wt, raw "
+            "opener -> wt (preamble under harness control, every type/session-id varint length, every cut set, settle/no-settle, payload "
+            "glued to the last preamble piece) and wt opener -> raw reader (wire bytes compared with the minimal preamble + payload); six data "
+            "directions; payload lengths across varint/window boundaries up to several flow-control windows (1 KiB stream window); all write "
+            "compositions for short payloads and boundary families beyond; read / read_exact / AsyncRead with six buffer sizes; 1-3 (8) "
+            "concurrent streams in three write orders; payloads that begin with preamble look-alikes; select! start deviations on the accept "
+            "path. Oracle: received bytes == sent bytes then end-of-stream, stream ids agree, no stream delivered twice.",
+            SIM_NOTE,
+            "exhaustive enumeration of a bounded scenario grid executed on the real stack under a deterministic simulated environment"),
     "C11": ("protox", "exploration", "DESIGN.md §6-C11",
             "Every network-facing decoder (varints, frames x3 paths, stream headers x3 paths + uni upgrade, SETTINGS, QPACK field sections, "
             "datagrams, capsules + close capsule, the four frame-reading typestates x3 paths) is executed on all byte strings up to length 3 "
